@@ -147,7 +147,7 @@ theorem TI.reattach {cfg : KConfig} {s s' : KState} {k c : Key} (h : TI cfg s) (
 theorem afterRecycle_ti {cfg : KConfig} {s s' : KState} {sk : Key} {d : StepDecl} {n : Node} (h : TI cfg s)
     (hflag : ∀ n' ∈ s.nodes, n'.key = sk → n'.checkAfter = true) (hc : s.afterRecycle sk d n = .ok s') :
     TI cfg s' ∧ Mono s s' := by
-  have hrel : SoftRel s (s.modify sk fun n => { n with need := d.need, shell := d.shell, holding := 0 }) := by
+  have hrel : SoftRel s (s.modify sk fun n => { n with need := d.need, shell := d.shell }) := by
     unfold KState.modify
     refine softRel_mapNodes s _ fun m hm => ?_
     by_cases hmk : m.key = sk
